@@ -207,6 +207,14 @@ impl<'a> Run<'a> {
         match r {
             Err(e) => {
                 let msg = panic_msg(&e);
+                if msg.contains("VERIF_CHILD_PANIC") {
+                    // a child panicked and the caller caught the unwind: the subject stays in use
+                    w(|x| {
+                        x.last_poll_pending = false;
+                        x.done_this_call.clear();
+                    });
+                    return Some(PollOut::Pending);
+                }
                 if msg.contains("VERIF_STOP") {
                     // a probe stopped the crate; the violation is already recorded
                 } else if msg.contains("VERIF_HARD_CAP") {
@@ -794,7 +802,7 @@ impl<'a> Run<'a> {
             if held > BUDGET as usize {
                 x.labels |= lb::POP_GT_BUDGET;
             }
-            if let Some((i, d)) = late {
+            if let (Some((i, d)), false) = (late, x.lenient) {
                 x.violate(
                     p(13),
                     "C13/starved",
@@ -1614,6 +1622,10 @@ impl<'a> Run<'a> {
                     idle_rounds += 1;
                 } else {
                     idle_rounds = 0;
+                }
+                if (idle_rounds >= 3 || rounds > max_rounds) && !finished && w(|x| x.lenient) {
+                    // a child panicked earlier in this case: nothing is promised about progress any more
+                    break;
                 }
                 if (idle_rounds >= 3 || rounds > max_rounds) && !finished && !(is_join && self.resolved) {
                     let pr = self.class_props();
